@@ -537,75 +537,31 @@ func c06R4(c *Ctx, rule string) {
 	if csh == nil || hs == nil {
 		return
 	}
-	// server offsets from the segment lengths
-	segLen := map[int64]int64{}
-	var arr *ssa.Alloc
-	allInstrs(csh, func(i ssa.Instruction) {
-		if al, ok := i.(*ssa.Alloc); ok && strings.HasSuffix(typeStr(al.Type()), "][]byte") {
-			arr = al
-		}
-	})
-	if arr != nil {
-		for _, r := range *arr.Referrers() {
-			ia, ok := r.(*ssa.IndexAddr)
-			if !ok {
-				continue
-			}
-			k, _ := intConst(ia.Index)
-			for _, rr := range *ia.Referrers() {
-				st, ok := rr.(*ssa.Store)
-				if !ok {
-					continue
-				}
-				if cb, ok := constBytes(st.Val); ok {
-					segLen[k] = int64(len(cb))
-				} else if st.Val == ssa.Value(csh.Params[0]) {
-					segLen[k] = 32
-				} else if call, ok := st.Val.(*ssa.Call); ok && calleeName(&call.Call) == "builtin.append" {
-					l := int64(0)
-					for _, a := range call.Call.Args {
-						if cb, ok := constBytes(a); ok {
-							l += int64(len(cb))
-						} else if mk, ok := a.(*ssa.MakeSlice); ok {
-							k2, _ := intConst(mk.Len)
-							l += k2
-						} else if kk, ok := constLenOf(a); ok {
-							l += kk
-						} else if lo, hi, ok := anySliceBounds(a); ok {
-							l += hi - lo
-						}
-					}
-					segLen[k] = l
-				}
-			}
-		}
+	// server offsets: where the flattened ServerHello (bseq.go) carries nonce ‖ key[0:20] and key[20:48]
+	sh, _, okSH := c10ServerHello(p, csh)
+	randomOff, keyShareBodyOff := int64(-1), int64(-1)
+	if okSH {
+		randomOff = bsOffsetOfSym(sh, csh.Params[1], 0)
+		keyShareBodyOff = bsOffsetOfSym(sh, csh.Params[2], 20)
 	}
-	off := func(k int64) int64 {
-		var o int64
-		for j := int64(0); j < k; j++ {
-			o += segLen[j]
-		}
-		return o
-	}
-	randomOff := off(3)
-	keyShareBodyOff := off(9) + 8
-	// client offsets
+	// client offsets: what the client hands to the AEAD as nonce and sealed key, as slices of the message it read
 	var cl []string
 	okClient := false
-	allInstrs(hs, func(i ssa.Instruction) {
-		if call, ok := i.(*ssa.Call); ok && calleeName(&call.Call) == "builtin.append" {
-			a0, a1 := call.Call.Args[0], call.Call.Args[1]
-			l0, h0, ok0 := anySliceBounds(a0)
-			l1, h1, ok1 := anySliceBounds(a1)
-			if ok0 && ok1 && h0-l0 == 32 && h1-l1 == 32 {
-				cl = append(cl, fmt.Sprintf("[%d:%d]‖[%d:%d]", l0, h0, l1, h1))
-				if l0 == randomOff && l1 == keyShareBodyOff {
-					okClient = true
-				}
+	if d := findCall(hs, "common.AESGCMDecrypt"); d != nil && okSH {
+		ev := newBsEval(p)
+		nq, ok1 := ev.eval(d.Call.Args[0])
+		cq, ok2 := ev.eval(d.Call.Args[2])
+		if ok1 && ok2 {
+			cl = append(cl, "nonce "+bseqString(nq), "sealed key "+bseqString(cq))
+			if len(nq) == 1 && nq[0].Kind == "sym" && nq[0].Lo == randomOff && nq[0].N == 12 {
+				msg := nq[0].Src
+				// sealed key = msg[random+12 : random+32] ‖ msg[keyShareBody : keyShareBody+28]
+				okClient = len(cq) == 2 && cq[0].Kind == "sym" && cq[0].Src == msg && cq[0].Lo == randomOff+12 && cq[0].N == 20 &&
+					cq[1].Kind == "sym" && cq[1].Src == msg && cq[1].Lo == keyShareBodyOff && cq[1].N == 28
 			}
 		}
-	})
-	c.Check(okClient && len(segLen) == 11, rule, "client read offsets = server template offsets", c.atFn(hs), fmt.Sprintf("random at %d, key-share body at %d; client reads %v", randomOff, keyShareBodyOff, cl),
+	}
+	c.Check(okClient && okSH, rule, "client read offsets = server template offsets", c.atFn(hs), fmt.Sprintf("random at %d, key-share body at %d; client reads %v", randomOff, keyShareBodyOff, cl),
 		fmt.Sprintf("the server composes the random at message offset %d and the key-share body at %d, the client reads %v: the two ends disagree on where the sealed session key is", randomOff, keyShareBodyOff, cl))
 	// nonce [0:12], ciphertext [12:60]
 	okSplit := false
@@ -627,7 +583,17 @@ func c06R4(c *Ctx, rule string) {
 	})
 	nrec := 0
 	if cr := p.Func("internal/server", "composeReply"); cr != nil {
-		nrec = len(callsIn(cr, "internal/server.addRecordLayer"))
+		ev2 := newBsEval(p)
+		if len(cr.Params) > 0 {
+			ev2.assume[cr.Params[0]] = 32
+		}
+		if rets := returnsOf(cr); len(rets) == 1 {
+			if q, okQ := ev2.eval(resultValue(rets[0], 0)); okQ {
+				if recs, okP := parseRecords(q); okP {
+					nrec = len(recs)
+				}
+			}
+		}
 	}
 	c.Check(loopOK && nrec == 3, rule, "client consumes the two records that follow the ServerHello", c.atFn(hs), "server sends 3 records, client reads 1 + 2", fmt.Sprintf("server sends %d records, client's follow-up loop bound 2 found=%v: leftover or missing records desynchronise the record stream", nrec, loopOK))
 	// CDN reply
